@@ -5,6 +5,7 @@
    3.6 execution.  LFSR cells are integers 1..2^31-1; 32-bit words are pairs <<hi16, lo16>>
    so that nothing exceeds TLC's 32-bit integers. *)
 EXTENDS Integers, Sequences, Bitwise, CryptoTables
+LOCAL INSTANCE SequencesExt       \* FoldLeft
 M31 == 2147483647
 Add31(a, b) == IF a > M31 - b THEN a - (M31 - b) ELSE a + b        \* a + b mod (2^31 - 1), 0 represented as 2^31-1
 P2(k) == 2^k
@@ -39,11 +40,10 @@ IterInit(st, n) == IF n = 0 THEN st ELSE IterInit(StepInit(st), n - 1)
 \* 3.5 key loading: s_i = k_i || d_i || iv_i
 Load(k, iv) == [s |-> SubSeq([i \in 1..16 |-> k[i] * 8388608 + ZD[i] * 256 + iv[i]], 1, 16), r1 |-> <<0,0>>, r2 |-> <<0,0>>]
 ReadyZ(k, iv) == StepWork(IterInit(Load(k, iv), 32))                  \* 32 init rounds, one discarded work round
-RECURSIVE GenZ(_,_,_)
-GenZ(st, n, acc) == IF n = 0 THEN acc
-                    ELSE LET X == BR(st.s) z == XorP(FOut(st, X), X[4]) IN GenZ(StepWork(st), n - 1, Append(acc, z))
-\* keystream of n 32-bit words (pairs); k, iv: 16 octets each
-ZucKS(k, iv, n) == GenZ(ReadyZ(k, iv), n, <<>>)
+\* keystream of n 32-bit words (pairs); k, iv: 16 octets each: Z = F xor X3, then LFSR work mode
+ZucKS(k, iv, n) ==
+  FoldLeft(LAMBDA a, t : LET X == BR(a.st.s) IN [st |-> StepWork(a.st), out |-> Append(a.out, XorP(FOut(a.st, X), X[4]))],
+           [st |-> ReadyZ(k, iv), out |-> <<>>], SubSeq([t \in 1..n |-> t], 1, n)).out
 \* as octets
 ZucBytes(k, iv, nwords) ==
   LET ws == ZucKS(k, iv, nwords) IN
